@@ -31,9 +31,9 @@ Fixpoint l2_expr (e : expr) {struct e} : bool :=
   end.
 
 (* statements covered: raw text, emit, if / elif / else, set, set-block (with filter), with,
-   filter block, autoescape, for loops WITHOUT filter (any target, else, loop variable), break and
-   continue ([inl]: inside a loop of the fragment, where loop controls are allowed);
-   not covered: for loops with a filter, macro, call block *)
+   filter block, autoescape, for loops (any target, filter, else, loop variable, recursive flag),
+   break and continue ([inl]: inside a loop of the fragment, where loop controls are allowed);
+   not covered: macro, call block *)
 Fixpoint l2_stmt (inl : bool) (t : stmt) {struct t} : bool :=
   match t with
   | SRaw _ => true
@@ -46,10 +46,10 @@ Fixpoint l2_stmt (inl : bool) (t : stmt) {struct t} : bool :=
   | SWith binds body => forallb (fun p => l2_expr (snd p)) binds && forallb (l2_stmt inl) body
   | SFilterBlock _ body => forallb (l2_stmt inl) body
   | SAutoEscape v body => l2_expr v && forallb (l2_stmt inl) body
-  | SFor _ iter None body els _ =>
-      l2_expr iter && forallb (l2_stmt true) body
+  | SFor _ iter flt body els _ =>
+      l2_expr iter && match flt with Some fe => l2_expr fe | None => true end
+      && forallb (l2_stmt true) body
       && match els with Some b => forallb (l2_stmt inl) b | None => true end
-  | SFor _ _ (Some _) _ _ _ => false
   | SBreak | SContinue => inl
   | SMacro _ _ _ _ | SCallBlock _ _ _ => false
   end.
@@ -92,3 +92,15 @@ Definition post (sg : signal) (lc : option lctx) (endpc : nat) (stk : list value
   | SigBreak => exists l, lc = Some l /\ σ' = unwound (lc_end l) (lc_pending l) stk s' esc escs caps its calls
   | SigContinue => exists l, lc = Some l /\ σ' = unwound (lc_iter l) (lc_pending l) stk s' esc escs caps its calls
   end.
+
+(* The accumulate loop of a filtered for counts the kept items with the VM's checked i128 addition
+   (LoadConst 1; Add on the counter): the one place where the VM can fall behind the interpreter, when
+   a sequence keeps 2^127 - 1 items or more.  [overflow C σ]: σ is about to execute such an Add. *)
+Definition overflow (C : list instr) (σ : vm) : Prop :=
+  nth_error C (v_pc σ) = Some (IBinOp OAdd) /\
+  exists k r, v_stk σ = VInt 1 :: VInt k :: r /\ (i128_max <= k)%Z.
+
+(* [post] or that overflow *)
+Definition postO (C : list instr) (sg : signal) (lc : option lctx) (endpc : nat) (stk : list value) (s' : st) (esc : bool)
+    (escs : list bool) (caps : list (list (list Z))) (its : list (list value)) (calls : list callframe) (σ' : vm) : Prop :=
+  post sg lc endpc stk s' esc escs caps its calls σ' \/ overflow C σ'.
